@@ -24,6 +24,8 @@ def classify(f):
     if ev["ev"] == "Parse":
         return ("scope/lexical-redeclaration-accepted" if o["verdict"] == "rejected" else "scope/valid-program-rejected") + ("/WhileToFor" if ev.get("w2f") else ""), ev, src
     exp, obs = o["exp"], ev.get("obs", [])
+    if ev["ev"] == "Vars" and iso(exp, obs) and ev.get("keys") != ev.get("xkeys"):
+        return "scope/property-key-changed-by-renaming", ev, src
     if ev["ev"] == "Vars" and iso(exp, obs):
         return "scope/uses-count-differs-from-printed-occurrences", ev, src
     if ev["ev"] == "Reparse" and not ev.get("ok"):
